@@ -198,8 +198,9 @@ class StructureMetaType(MetaType):
                     bits_remaining == 0
                     # Moved to a bit field of another type, e.g. uint16 f1 : 8, uint32 f2 : 8;
                     or field_type != bits_type
-                    # Still processing a bit field, but it's at a different offset due to alignment or a manual offset
-                    or (bits_type is not None and offset is not None and offset > bits_field_offset + bits_type.size)
+                    # Still processing a bit field, but it's at a different offset due to a manual offset
+                    # (alignment never moves a field out of its unit, also not if the unit size is no multiple of it)
+                    or (bits_type is not None and field.offset is not None and offset > bits_field_offset + bits_type.size)
                 ):
                     # ... if any of this is true, we have to move to the next field
                     bits_type = field_type
